@@ -138,6 +138,10 @@ def ite(run, c, a, b):
                 b = run.coerce(b, a.ty)
             elif isinstance(b.ty, TOpt):
                 a = run.coerce(a, b.ty)
+            elif run.x.reg.stubs.get(("coerce", b.ty.name, a.ty.name)):
+                b = run.x.reg.stubs[("coerce", b.ty.name, a.ty.name)](run, b, a.ty)
+            elif run.x.reg.stubs.get(("coerce", a.ty.name, b.ty.name)):
+                a = run.x.reg.stubs[("coerce", a.ty.name, b.ty.name)](run, a, b.ty)
             else:
                 raise err(f"if-expression with different types {a.ty} / {b.ty}")
         return Val(a.ty, z3.If(c, a.t, b.t))
@@ -157,6 +161,9 @@ def to_str(run, v, node):
     if isinstance(v, Val):
         if v.ty is TStr:
             return v
+        h = run.x.reg.stubs.get(("tostr", v.ty.name))
+        if h is not None:
+            return h(run, v)
         if v.ty is TInt:
             return Val(TStr, z3.If(v.t >= 0, z3.IntToStr(v.t), z3.Concat(z3.StringVal("-"), z3.IntToStr(-v.t))))
         if isinstance(v.ty, TObj):
@@ -541,6 +548,11 @@ def eq_terms(run, a, b):
         return a.t == b.t
     if a.ty is TAny or b.ty is TAny:
         return run.coerce(a, TAny).t == run.coerce(b, TAny).t
+    for x, y, sw in ((a, b, False), (b, a, True)):
+        h = run.x.reg.stubs.get(("coerce", x.ty.name, y.ty.name))
+        if h is not None:
+            xx = h(run, x, y.ty)
+            return xx.t == y.t
     # values of different python types are never equal
     return z3.BoolVal(False)
 
@@ -626,6 +638,33 @@ def is_none_like(v):
 # ------------------------------------------------------------------ comprehensions
 def comprehension(run, node, fr, kind):
     from .interp import Frame
+    if kind == "list" and len(node.generators) == 1 and not node.generators[0].ifs:
+        g = node.generators[0]
+        src = iter_to_seq(run, run.ev(g.iter, fr), node)
+        # [f(x) for x in S]: a fresh sequence R with len(R) == len(S) and R[i] == f(S[i]) for every i.
+        # f is evaluated once as a TERM over an arbitrary element (no forking); partial operations inside f become
+        # obligations quantified over the elements (Run.oblige with qvars/guards).
+        i = z3.FreshConst(z3.IntSort(), "ci")
+        f2 = Frame(fr.finfo, parent=fr)
+        run.assign(g.target, Val(src.ty.elem, src.t[i]), f2)
+        rng = z3.And(0 <= i, i < z3.Length(src.t))
+        run.spec += 1
+        run.qvars.append(i)
+        run.guards.append(rng)
+        try:
+            out = run.ev(node.elt, f2)
+        finally:
+            run.guards.pop()
+            run.qvars.pop()
+            run.spec -= 1
+        if not isinstance(out, Val):
+            raise err("list comprehension element is not a symbolic value")
+        rty = TSeq(out.ty)
+        R = z3.FreshConst(rty.sort(), "comp")
+        for ax in (z3.Length(R) == z3.Length(src.t), z3.ForAll([i], z3.Implies(rng, R[i] == out.t))):
+            run.pc.append(ax)
+            run.solver_add(ax)
+        return Val(rty, R)
     if kind == "dict" and len(node.generators) == 1 and not node.generators[0].ifs:
         g = node.generators[0]
         it = g.iter
